@@ -531,6 +531,10 @@ def _process(cls: t.Type[PaneBase], opts: PaneOptions):
         if '__init__' in cls.__dict__:
             raise TypeError(f"Can't overwrite __init__ function in class {cls.__name__}")
         _make_init(cls, fields)
+    if PANE_BOUNDVARS in cls.__dict__:
+        # a parametrization (``Cls[int]``) has the fields of its class, and keeps its comparison
+        # methods: those written in the class body as well as the generated ones
+        return cls
     # like the stdlib, decide whether __hash__ was given explicitly *before* __eq__ is added
     class_hash = cls.__dict__.get('__hash__', _MISSING)
     has_explicit_hash = not (class_hash is _MISSING or
